@@ -24,7 +24,7 @@ RULE = (
     "distinct (sequence, mode); evaluations count sequence elements."
 )
 ASSUMPTIONS = ["fresh-process reports are memoised per shard (same code, same argv => same fresh report)"]
-MIN_NONTRIVIAL = {"quick": 60, "thorough": 1500}
+MIN_NONTRIVIAL = {"quick": 60, "thorough": 240}
 SHARD_TIMEOUT = {"quick": 1500, "thorough": 7200}
 
 
